@@ -880,6 +880,116 @@ def preloop_case(ctx, case):
                      {k: r.get(k) for k in ("class", "exc", "site", "msg")}, m)
 
 
+# ---- H: header rules (model Pyxv.HeaderRules.sheetHeaders on Pyxv.Headers.dealiasAndGroupHeaders; theorems
+# Pyxv.C17.Hdr.alias_clash_rejected / missing_required_rejected / accepted_has_required)
+HDR_PREFIX = "Invalid headers provided for sheet: "
+
+
+def header_spellings(sheet):
+    """every alias of the sheet's alias table with the canonical spelling of its column, plus case / blank / language variants"""
+    from pyxform import aliases
+
+    table = aliases.survey_header if sheet == "survey" else aliases.list_header
+    out = []
+    for a, canon in table.items():
+        if "jr" in a.split(":"):
+            continue  # `jr:count` as a header: IndexError class of F-process-header (stream P)
+        c = "::".join(canon) if isinstance(canon, tuple) else canon
+        out.append((a, c))
+    return out
+
+
+def headers_cases(rng, n_random):
+    T = [{"type": "text", "name": "a", "label": "A"}]
+    L = [{"list_name": "l", "name": "a", "label": "A"}]
+    S1 = T + [{"type": "select_one l", "name": "s", "label": "S"}]
+
+    def mk(kind, sheet, cols, rows=None, other=None):
+        f = {"survey": T, "survey_cols": ["type", "name", "label"]}
+        if sheet == "survey":
+            f["survey"] = T if rows is None else rows
+            f["survey_cols"] = cols
+            if other:
+                f["choices"] = L
+                f["survey"] = S1 if rows is None else rows
+        else:
+            f["survey"] = S1
+            f["choices"] = L if rows is None else rows
+            f["choices_cols"] = cols
+        return {"stream": "headers", "kind": kind, "sheet": sheet, "form": f, "via": "dict"}
+
+    for sheet, base in (("survey", ["type", "name", "label"]), ("choices", ["list_name", "name", "label"])):
+        for a, c in header_spellings(sheet):
+            if a == c:
+                continue
+            for pair in ([c, a], [a, c], [a, a.upper()], [a.title(), a], [a, a + " "], [c, c + "::en"], [a + "::en", c + "::en"],
+                         [a + ":en", c + ":en"], [a, a]):
+                yield mk("clash", sheet, base + pair)
+                yield mk("clash", sheet, pair + base)
+    # required column missing / present under another spelling
+    for cols in (["name", "label"], ["Type", "name", "label"], ["TYPE ", "name"], ["command", "name", "label"], ["type::x", "name"],
+                 ["bind::type", "name", "label"], ["name", "label", "typ"], ["label"], ["types", "name"], ["name", "label", "type"]):
+        yield mk("required", "survey", cols)
+        yield mk("required", "survey", cols, rows=[])
+        yield mk("required", "survey", cols, rows=[{"name": "a", "label": "A"}], other=True)
+    for cols in (["list_name", "label"], ["list_name", "value", "label"], ["list_name", "tag", "label"], ["list_name", "Name", "label"],
+                 ["list_name", "name::en", "label"], ["list name", "label"], ["label"], ["list_name", "label", "name"]):
+        yield mk("required", "choices", cols)
+        yield mk("required", "choices", cols, rows=[{"list_name": "l", "label": "A"}])
+        yield mk("required", "choices", cols, rows=[{"list_name": "l", "label": "A"}, {"list_name": "l", "label": "B"}])
+    # seeded: a few columns drawn from the spellings of the sheet's table, anywhere in the header row
+    for _ in range(n_random):
+        sheet = rng.choice(["survey", "choices"])
+        base = ["type", "name", "label"] if sheet == "survey" else ["list_name", "name", "label"]
+        pool = []
+        for a, c in header_spellings(sheet):
+            pool += [a, c, a.upper(), a + "::en", c + "::fr", " " + a, a.replace("_", " ")]
+        cols = list(base)
+        if rng.random() < 0.25:
+            cols.remove(rng.choice(cols))
+        for h in rng.sample(pool, rng.randint(1, 4)):
+            cols.insert(rng.randint(0, len(cols)), h)
+        seen = []
+        for h in cols:
+            if h not in seen:
+                seen.append(h)
+        yield mk("random", sheet, seen)
+
+
+def headers_case(ctx, case):
+    """the header stage of the choices and the survey sheet: the model's diagnosis (sheet, header names) against the
+    message of convert(), both ways"""
+    form = case["form"]
+    r = run_case(case)
+    check_no_internal(ctx, case, r)
+    pred = None
+    for sheet in ("choices", "survey"):
+        if sheet == "choices" and not form.get("choices"):
+            continue
+        rows = [[[k, str(v)] for k, v in row.items() if v not in (None, "")] for row in form.get(sheet, [])]
+        cols = impl.headers_of(form.get(sheet, []), form.get(sheet + "_cols"))
+        m = ctx.driver.call("c17.sheet_headers", sheet=sheet, cols=cols, rows=rows, dl="default")
+        if m["outcome"] == "unsupported":
+            ctx.count("H:unsupported")
+            return
+        if m["outcome"] != "pass":
+            pred = (sheet, m)
+            break
+    got = {k: r.get(k) for k in ("class", "exc", "site", "msg")}
+    if pred is None:
+        ctx.count(f"H:{case['kind']}:model:pass/impl:{r['class']}")
+        if r["class"] == "pyxform" and r.get("msg", "").startswith((HDR_PREFIX + "'survey'", HDR_PREFIX + "'choices'")):
+            ctx.mismatch("headers: the implementation refuses the header row, the model accepts it", case, got, {"outcome": "pass"})
+        return
+    sheet, m = pred
+    ctx.count(f"H:{case['kind']}:model:{m['outcome']}:{sheet}/impl:{r['class']}")
+    if m["outcome"] == "reject":
+        if not (r["class"] == "pyxform" and r.get("msg") == m["msg"]):
+            ctx.mismatch("headers: the model's located diagnosis is not the message of convert()", case, got, m)
+    elif m["outcome"] == "internal" and r["class"] != "internal":
+        ctx.mismatch("headers: model predicts an internal exception the implementation does not raise", case, got, m)
+
+
 def every_kind_prefix(langs):
     """a valid block containing one row of every kind the row loop distinguishes (state that the loop carries
     from row to row — parameter lists, table-list flag, stack, question names — is exercised before the mutated row)"""
@@ -990,6 +1100,11 @@ def explore(ctx, factor, bs):
         for case in preloop_cases():
             preloop_case(ctx, case)
             ctx.record(case, True)
+    # ---- H: header rules — alias clash, required column (model Pyxv.HeaderRules, theorems Pyxv.C17.Hdr.*)
+    if factor == 1:
+        for case in headers_cases(rng, ctx.pick(150, 1500)):
+            headers_case(ctx, case)
+            ctx.record(case, True)
     # ---- A: catalogue
     n_forms = ctx.pick(12, 70) * factor
     site_cap = ctx.pick(32, 110)
@@ -1061,6 +1176,8 @@ def replay(ctx, payload, bs):
         rowloop_case(ctx, case)
     elif case.get("stream") == "preloop":
         preloop_case(ctx, case)
+    elif case.get("stream") == "headers":
+        headers_case(ctx, case)
     elif case.get("stream") == "near-miss":
         near_miss_case(ctx, case)
     elif case.get("stream") == "separators":
